@@ -114,7 +114,7 @@ def serve_dataset(args):
     return lines, raws, info
 
 
-def l3_batch(seed, count, nq, driver, outdir, binary=None, profiles=("opt", "loops", "grid", "tiny", "wide", "asymfp", "mixedwait"), opts=None, workers=8):
+def l3_batch(seed, count, nq, driver, outdir, binary=None, profiles=("opt", "loops", "grid", "tiny", "wide", "asymfp", "mixedwait", "pairfam", "rewrites"), opts=None, workers=8):
     """returns (records, extras) ; extras[case] = (ds, ops, raws, info)"""
     opts = opts or {}
     if binary is None:
